@@ -34,7 +34,7 @@ def regen(ctx):
 def correspond(ctx):
     strength = "thorough" if ctx.tier == "thorough" else "quick"
     ab.start_search(ctx, "c02_impl.py", {"mode": "search", "strength": strength, "seed": ctx.seed})
-    res = ctx.run_impl("c02_impl.py", {"mode": "corr", "strength": strength, "seed": ctx.seed}, timeout=1500)
+    res = ctx.run_impl("c02_impl.py", {"mode": "corr", "strength": strength, "seed": ctx.seed}, timeout=1500, threads=ab.THREADS)
     if res is None:
         return
     outs = ab.eval_many(ctx, [("c02pot%d" % i, ab.potential_body(c)) for i, c in enumerate(res["pots"])])
